@@ -662,7 +662,7 @@ fn replay<P: Prop>(prop: &P, path: &PathBuf, known: &[KnownFinding]) -> i32 {
             return 2;
         }
     };
-    std::panic::set_hook(Box::new(|_| {}));
+    if std::env::var_os("VERIF_PANIC_TRACE").is_none() { std::panic::set_hook(Box::new(|_| {})); }
     match guarded_check(prop, &file.case) {
         Outcome::Pass { nontrivial, labels } => {
             println!("replay {id}: PASS (nontrivial={nontrivial}, labels={labels:?})");
